@@ -348,7 +348,23 @@ def ev(case, rec):
     rec.sample({'case': case, 'reachable_states': len(seen)})
 
 
-SUBCHECKS = [Sub('graph', gen, ev, chunk=2, floor=200, envs=4)]
+# --- two threads converting DIFFERENT points (different heights, zones, ellipsoids) at the same time -------------------------
+from gpmc import threads as _thr
+T_CALLS = {
+    'cart.tm': lambda: (lambda o=gco.CoordCart(-4052051.7643, 4212836.2017, -2545106.0245, 12.5): o.tm()),
+    'cart.tm_ans': lambda: (lambda o=gco.CoordCart(-4646678.6, 2553206.1, -3534319.9, None): o.tm(gc.ans, gc.isg)),
+    'tm.cart': lambda: (lambda o=gco.CoordTM(53, 386352.3979, 7381850.7689, 603.3, 588.1): o.cart()),
+    'tm.cart_h0': lambda: (lambda o=gco.CoordTM(55, 300000.0, 6200000.0, 0.0, None): o.cart(gc.ans)),
+    'tm.geo': lambda: (lambda o=gco.CoordTM(31, 612345.6789, 1234567.891, -12.5, 3.0, True): o.geo(gc.grs80, ga.DMSAngle)),
+    'geo.tm': lambda: (lambda o=gco.CoordGeo(ga.DMSAngle(-23, 40, 12.5), ga.DMSAngle(133, 52, 48.0), None, 588.1): o.tm()),
+    'geo.cart': lambda: (lambda o=gco.CoordGeo(-33.5, 151.2, 17.0, 4.0): o.cart(gc.ans)),
+    'cart.geo': lambda: (lambda o=gco.CoordCart(2765120.7, -4449250.0, 3626405.6, 0.0): o.geo(gc.grs80, ga.HPAngle)),
+    'geo.notation': lambda: (lambda o=gco.CoordGeo(ga.HPAngle(-23.40125), ga.HPAngle(133.5248), 1.0, None): o.notation(ga.GONAngle)),
+}
+_tg, _te = _thr.make(T_CALLS, ['geodepy/coord.py'], 'coord:threads', files_thorough=['geodepy/convert.py'],
+                     quick=['cart.tm', 'tm.cart', 'tm.cart_h0', 'geo.tm', 'cart.tm_ans'], triple=('cart.tm', 'tm.cart_h0', 'geo.cart'))
+
+SUBCHECKS = [Sub('graph', gen, ev, chunk=2, floor=200, envs=4), Sub('threads', _tg, _te, chunk=1, floor=5, poison=False)]
 
 
 def bounds(tier, seed):
